@@ -6,6 +6,8 @@
 package snappy
 
 import (
+	"fmt"
+
 	"github.com/golang/snappy"
 )
 
@@ -26,6 +28,15 @@ func (sc snappyCodec) Encode(src, dst []byte) ([]byte, uint32) {
 }
 
 func (sc snappyCodec) Decode(src, dst []byte) ([]byte, uint32, error) {
+	// snappy.Decode allocates what the header of the block says. The longest
+	// copy element produces 64 bytes out of 3, so a length way beyond that
+	// ratio can only come from a corrupted block.
+	if n, err := snappy.DecodedLen(src); err != nil {
+		return nil, 0, err
+	} else if n > 64*len(src) {
+		return nil, 0, fmt.Errorf("snappy: decoded length %d is too large for a block of %d bytes",
+			n, len(src))
+	}
 	chunk, err := snappy.Decode(dst[len(dst):cap(dst)], src)
 	if err != nil {
 		return nil, 0, err
